@@ -1,5 +1,4 @@
 import sys
-from functools import lru_cache
 
 from xlcalculator.xlfunctions import xl, func_xltypes
 
@@ -11,6 +10,9 @@ class EvaluatorContext(ast_nodes.EvalContext):
     def __init__(self, evaluator, ref):
         super().__init__(evaluator.namespace, ref)
         self.evaluator = evaluator
+        # Values of the cells this context has already evaluated. The cache
+        # lives and dies with the context.
+        self._cell_values = {}
 
     @property
     def cells(self):
@@ -20,15 +22,18 @@ class EvaluatorContext(ast_nodes.EvalContext):
     def ranges(self):
         return self.evaluator.model.ranges
 
-    @lru_cache(maxsize=None)
     def eval_cell(self, addr):
+        if addr in self._cell_values:
+            return self._cell_values[addr]
+
         # Check for a cycle.
         if addr in self.seen:
             raise RuntimeError(
                 f'Cycle detected for {addr}:\n- ' + '\n- '.join(self.seen))
         self.seen.append(addr)
 
-        return self.evaluator.evaluate(addr, None)
+        value = self._cell_values[addr] = self.evaluator.evaluate(addr, None)
+        return value
 
 
 class Evaluator:
